@@ -7,7 +7,8 @@ from fv.model import get_model
 RULE = ("generated programs rendered in fixed form (labels cols 1-5, continuation mark in col 6 from '&1+*$x', wrap column in "
         "{40,60,66,72}, early wraps, comment lines C/c/*/! incl. between continuation lines, literals crossing the wrap); oracle: "
         "detected mode == fixed and tree == tree(free canonical); free renderings (first statement in cols 1-5): detected free; "
-        "detection also compared with the Lean model Fp.SourceInfo.detect; non-trivial = >= 2 wrapped statements")
+        "detection also compared with the Lean model Fp.SourceInfo.detect; non-trivial = >= 2 wrapped statements"
+        ' Correspondence: Fp.Reader (fixed-form branch) against the real reader on every second fixed-form rendering.')
 ASSUMPTIONS = ["format detection is the sourceinfo heuristic; its domain restrictions are theorem hypotheses (detect_fixed/detect_free)"]
 TIE_MODULES = ["FparserModel.SourceInfo", "FparserModel.Reader"]
 
@@ -77,6 +78,9 @@ def run_case(case):
                                     "what": "fixed-form rendering detected as %s" % mode_real,
                                     "replay": {"case": case, "source": src}})
             return res
+        if case["seed"] % 2 == 0:
+            res["findings"] += util.reader_cosim(src, "fix", case=case)
+            res["counts"]["reader-cosim"] = 1
         o1 = real.try_parse(src, std=std)
         if o1.kind != "tree":
             res["findings"].append({"signature": "fixed-reject:" + util.outcome_signature(o1),
